@@ -23,7 +23,7 @@ def mk(cx, cy, cd=False, kind="random", seed=0, cross=False):
         h['CD1_1'], h['CD2_2'] = -0.01, 0.02
         if cross:
             h['CD1_2'], h['CD2_1'] = 0.00342, -0.00271
-    else:
+    if not cd or cd == 'both':       # a header may carry both conventions
         h['CDELT1'], h['CDELT2'] = -0.01, 0.02
     return fits.HDUList([hdu]), data
 
@@ -102,7 +102,7 @@ def crosscheck(p):
     for i, (cx, cy, f) in enumerate(cases):
         for kind in ("random", "bilinear"):
             evals += 1
-            for lab, what in case_failures(cx, cy, f, cd=(i % 3 == 0), kind=kind, seed=i):
+            for lab, what in case_failures(cx, cy, f, cd=(True if i % 3 == 0 else ('both' if i % 7 == 1 else False)), kind=kind, seed=i):
                 if lab not in seen:
                     seen.add(lab)
                     failures.append({"label": lab, "input": {"shape": [cx, cy], "factor": f, "kind": kind}, "what": what,
